@@ -251,25 +251,52 @@ def r2_deltas(ctx):
         if isinstance(v, tuple) and v[0] == 'adt':
             got = tuple_list(dict(v[3]).get('move_offsets'))
         ctx.ob(rule, PM + nm, 'generator deltas of %s' % nm, got is not None and sorted(got) == sorted(dirs), found=got, expected=sorted(dirs))
-    # sibling agreement of the ray walkers
-    ro = {'common::bitboard::square::to_rank_file', 'common::bitboard::square::from_rank_file'}
-    e1 = Engine(facts, readonly=ro).run(MT + 'try_offset')
-    e2 = Engine(facts, readonly=ro).run(PM + 'try_offset')
-    ctx.touch(MT + 'try_offset', PM + 'try_offset')
-    ctx.ob(rule, MT + 'try_offset', 'engine and generator try_offset are term-equal', norm_outcomes(e1, []) == norm_outcomes(e2, []) and len(e1) >= 2,
-           found=sorted(norm_outcomes(e1, []) ^ norm_outcomes(e2, []))[:3], expected='identical outcome sets')
-    # try_offset itself: new = (rank + dr, file + df) inside 0..8 else None
-    okt = False
-    for o in e1:
-        if o.kind == 'return' and o.value[0] == 'agg' and o.value[3] == 'Some':
-            s = show(o.value)
-            okt = 'to_rank_file' in s and 'WAdd arg2' in s and 'WAdd arg3' in s and s.index('WAdd arg2') < s.index('WAdd arg3')
-            rng = [show_cond(c) for c in o.conds]
-            okt = okt and all('Range(0, 8)' in r and '== 1' in r for r in rng) and len(rng) == 2
-    ctx.ob(rule, MT + 'try_offset', 'Some(from_rank_file(rank+dr, file+df)) iff both stay within 0..8', okt, expected='bounds-checked step')
-    n1 = ray_walker(ctx, rule, MT + 'slider_moves', MT + 'try_offset', 2, 3,
+    # the one-step function of each walker, found by its signature (Bitboard, i8, i8) -> Option<Bitboard> in the walker's module,
+    # tabulated by partial evaluation on 64 squares x 9 steps against the code's own rank/file numbering
+    SQ_ = 'common::bitboard::square::'
+    rf = {}
+    for i in range(64):
+        o1 = [o for o in Engine(facts).run(SQ_ + 'to_rank_file', args=[bb(1 << i)]) if o.kind == 'return']
+        if len(o1) == 1 and o1[0].value[0] == 'agg' and all(is_const(x) for _, x in o1[0].value[4]):
+            rf[i] = tuple(x[1] for _, x in o1[0].value[4])
+    inv = {v: k for k, v in rf.items()}
+    ctx.ob(rule, SQ_ + 'to_rank_file', 'rank/file numbering is a bijection of the 64 squares onto 0..8 x 0..8', len(rf) == 64 and len(inv) == 64 and
+           set(inv) == {(r_, f_) for r_ in range(8) for f_ in range(8)}, found=len(inv), expected=64, nontrivial=False)
+
+    def step_fn(prefix):
+        c = [n for n, f in facts.fns.items() if n.startswith(prefix) and f.kind != 'Closure' and n.count('::') == prefix.count('::')
+             and (f.raw.get('sig') or '').replace(' ', '').endswith('fn(common::bitboard::bitboard::Bitboard,i8,i8)->std::option::Option<common::bitboard::bitboard::Bitboard>')]
+        return c[0] if len(c) == 1 else None
+    tries = {}
+    for side, prefix in (('engine', MT), ('generator', PM)):
+        tn = step_fn(prefix)
+        tries[side] = tn
+        if tn is None:
+            ctx.anchor_missing(rule, prefix + 'try_offset', 'expected one step function (Bitboard, i8, i8) -> Option<Bitboard>')
+            continue
+        ctx.touch(tn)
+        bad = []
+        for i in range(64):
+            for dr in (-1, 0, 1):
+                for df in (-1, 0, 1):
+                    outs1 = [o for o in Engine(facts).run(tn, args=[bb(1 << i), C(dr), C(df)]) if o.kind != 'abort']
+                    r_, f_ = rf.get(i, (None, None))
+                    want = inv.get((r_ + dr, f_ + df)) if r_ is not None else None
+                    got = '?'
+                    if len(outs1) == 1 and outs1[0].kind == 'return' and outs1[0].value[0] == 'agg':
+                        v = outs1[0].value
+                        if v[3] == 'None':
+                            got = None
+                        elif v[3] == 'Some':
+                            b_ = bb_of(dict(v[4])['0'])
+                            got = (b_.bit_length() - 1) if (b_ and b_ & (b_ - 1) == 0) else '?'
+                    if got != want:
+                        bad.append((sq_name(1 << i), (dr, df), got if got in (None, '?') else sq_name(1 << got)))
+        ctx.ob(rule, tn, 'Some(from_rank_file(rank+dr, file+df)) iff both stay within 0..8', not bad, found=bad[:4], expected='bounds-checked step (64 squares x 9 steps)',
+               why='a step that wraps around the edge (or refuses an on-board square) makes every ray through that edge wrong')
+    n1 = ray_walker(ctx, rule, MT + 'slider_moves', tries.get('engine') or MT + 'try_offset', 2, 3,
                     lambda el: any(x == ('p', 1) for x in subterms(el)))
-    n2 = ray_walker(ctx, rule, PM + 'SlidingPiece::targets', PM + 'try_offset', 2, 3,
+    n2 = ray_walker(ctx, rule, PM + 'SlidingPiece::targets', tries.get('generator') or PM + 'try_offset', 2, 3,
                     lambda el: any(x[0] == 'fld' and x[2] == 'move_offsets' for x in subterms(el)))
     ctx.floor(rule, 'ray-step cases evaluated', (n1 or 0) + (n2 or 0), 2 * 64 * 8 * 8)
 
